@@ -169,7 +169,7 @@ fn tally(rec: &mut Recorder, out: &str) {
 pub fn run(rec: &mut Recorder, w: &mut World, tier: &str, seed: u64) {
     let mut rng = Rng::new(seed);
     let ks = kinds();
-    let per = (if tier == "thorough" { 400 } else { 24 }) * rec.budget as usize;
+    let per = (if tier == "thorough" { 400 } else { 40 }) * rec.budget as usize;
     // ---- the documented model kinds x the four effect rules ----
     for k in &ks {
         let reqs = requests(k);
@@ -182,7 +182,7 @@ pub fn run(rec: &mut Recorder, w: &mut World, tier: &str, seed: u64) {
                 let mut rules: Vec<Vec<String>> = vec![];
                 for _ in 0..n { let r = gen_rule(&mut rng, k, with_eft); if !rules.contains(&r) { rules.push(r); } }
                 // occasionally a malformed stored rule (wrong length): must be an error when reached
-                if rng.chance(1, 12) && !rules.is_empty() { let i = rng.below(rules.len()); rules[i].pop(); rec.count("policy:malformed-rule"); }
+                if rng.chance(1, 10) && !rules.is_empty() { let i = rng.below(rules.len()); if rng.chance(1, 2) { rules[i].pop(); } else { rules[i].push("allow".to_string()); } rec.count("policy:malformed-rule"); }
                 let links = gen_links(&mut rng, k);
                 rec.begin();
                 let lines = lines_of("p", &rules, &k.g, &links);
@@ -200,7 +200,7 @@ pub fn run(rec: &mut Recorder, w: &mut World, tier: &str, seed: u64) {
         }
     }
     // ---- seeded random matcher expressions ----
-    let n_rand = (if tier == "thorough" { 6000 } else { 500 }) * rec.budget as usize;
+    let n_rand = (if tier == "thorough" { 6000 } else { 1200 }) * rec.budget as usize;
     let base = &ks[4]; // rbac universes
     let lits = ["alice", "admin", "data1", "read", "/data/*", "root", ""];
     for it in 0..n_rand {
